@@ -552,6 +552,9 @@ func runReplay(nat *sx.Native, doc replayDoc, path string) (bool, string) {
 }
 
 func cmdReplay(path string) int {
+	if abs, err := filepath.Abs(path); err == nil {
+		path = abs // the native test binary runs in its own directory
+	}
 	data, err := os.ReadFile(path)
 	if err != nil {
 		fmt.Println(err)
